@@ -586,9 +586,9 @@ def warm_imports():
     import opendsm.eemeter.models.billing.data  # noqa
 
 
-N_HOURLY = (140, 4000)
-N_SUB = (90, 2500)
-N_BILL = (24, 400)
+N_HOURLY = (140, 2500)
+N_SUB = (90, 1500)
+N_BILL = (24, 250)
 
 
 def main():
